@@ -107,6 +107,8 @@ def run_corpus(tag="memo"):
                       # well-formed, but every level abandons one alternative after composing nodes (a content with meta-data and no body)
                       ("meta-only-contents", lambda d: "res / on get -> " + "<headers={ 'next " * d + "<status=204>" + " }>" * d + ";\n"),
                       ("nests-inside-a-rec-body", lambda d: "let a = rec x " + "{ 'p [" * d + "x" + "] }" * d + ";\n"),
+                      ("meta-only-contents-with-a-repetition-in-a-later-entry", lambda d: "res / on get -> " + "<headers=" * d + "<status=204>" + ", media={ 'a num, 'b num }>" * d + ";\n"),
+                      ("applications-with-two-arguments-nested", lambda d: "let a = " + "(f (" * d + "x" + ") y)" * d + ";\n"),
                       ("contents-with-bodies", lambda d: "res / on get -> " + "<status=200, { 'next " * d + "<status=204, {}>" + " }>" * d + ";\n")):
         rr = {}
         for d in (3, 5, 7):
@@ -288,6 +290,19 @@ def memo_lemmas(o, L, S, E, MM, MS, fs, structural, on_sat, bad):
                 for st in mp.stmts_of(bb)[0]:
                     if st[0] == "assign" and st[1][0] == "place" and st[1][1] == 1 and len(st[1][2]) == 2 and st[1][2][0] == ("deref",) and st[1][2][1][:2] == ("f", i_nc):
                         writers.append(fm.short)
+        # ... and the table only grows: no Context method clears, removes or drains it
+        shrinkers = []
+        for fm in MM.funcs:
+            if not fm.args or "grammar::Context<" not in fm.args[0][1]:
+                continue
+            for bb in fm.blocks.values():
+                if bb.cleanup or not bb.term:
+                    continue
+                pt = mp.stmts_of(bb)[1]
+                if pt[0] == "call" and re.search(r"HashMap::<.*>::(clear|remove|remove_entry|retain|drain|extract_if|shrink_to|shrink_to_fit)(::<.*>)?$", str(pt[2])):
+                    shrinkers.append(fm.short)
+        structural("Context: nothing ever takes an entry out of the memo table (no clear / remove / retain / drain in any Context method)", not shrinkers,
+                   "Context: %s takes entries out of the memo table" % ", ".join(sorted(set(shrinkers))))
         o.extra["no_cache_writers"] = sorted(set(writers))
         structural("Context: the caching switch is written by without_cache only (nothing turns it off for a part of the input)", set(writers) <= {"grammar::without_cache"},
                    "Context: %s writes the caching switch" % ", ".join(sorted(set(writers) - {"grammar::without_cache"})))
